@@ -130,6 +130,10 @@ func ClearRules() error {
 func LoadRules(rules []*Rule) (bool, error) {
 	rulesMap := make(map[string]*Rule, 16)
 	for _, rule := range rules {
+		if rule == nil {
+			// nil elements are ignored like any other invalid rule
+			continue
+		}
 		rulesMap[rule.Resource] = rule
 	}
 	updateRuleMux.Lock()
